@@ -116,6 +116,9 @@ Print Assumptions C06_exactly_once.
 
 (* types of other packages never: in a whole run (any switches) every GenerateType / GenerateAliasType
    event belongs to a processed package and is for a declaration of that very package *)
+(* (holds BY CONSTRUCTION of the model: [execute] hands each package's session only that package's own [pk_defs],
+   so an event for another package's declaration cannot be formed; the theorem records this structural fact, it is
+   tied to the code — doGenerate ranging over p.Types() of the package at hand — by the C06 harness only) *)
 Theorem C06_other_packages_never :
   forall fx all pkgs gens G evs o,
     execute fx all pkgs gens G = Ok (evs, o) ->
@@ -179,6 +182,9 @@ Print Assumptions C06_defers_after_calls.
 
 (* before its file is written: the trace of a package is callbacks (calls and defers of that package,
    for its own declarations) followed by at most one write event *)
+(* (the write event is SYNTHETIC: the model's [pkg_execute] appends one [EWrites] after the sessions of all generators,
+   Model/Dispatch.v 261-266, so "after the callbacks" restates how the model is written; what ties it to real writes is
+   C06_whole_writes_are_pipeline_writes below and, for the code, the harness) *)
 Theorem C06_write_after_callbacks :
   forall fx p gens G evs o,
     pkg_execute fx p gens G = Ok (evs, o) ->
